@@ -32,6 +32,8 @@ class Sim:
         self.active = {}
         self.sbatch = []          # (hpc id, batch id, [job names])
         self.scancel = []
+        self.stuck = []
+        self.cfg_drift = []
         self.calls = 0
         self.fail_sbatch_call = None     # raise OSError at the k-th sbatch call (after accepting earlier ones)
         self.fail_squeue = 0             # number of squeue calls that fail (all retries)
@@ -55,7 +57,16 @@ class Sim:
             script = open(cmd.split()[1]).read()
             run = re.search(r"srun (\S+)", script).group(1)
             cfgf = re.search(r"run-jobs (\S+)", open(run).read()).group(1)
-            jobs = [(j["name"], j.get("blocked_by", []), j.get("cancel_on_blocking_job_failure", False)) for j in load_data(cfgf)["jobs"]]
+            bcfg = load_data(cfgf)
+            jobs = [(j["name"], j.get("blocked_by", []), j.get("cancel_on_blocking_job_failure", False)) for j in bcfg["jobs"]]
+            # C16/C17: the configuration a node receives is the submission's configuration with only the job list replaced
+            # (node setup / teardown commands, submission groups, ... must reach the node)
+            base_file = os.path.join(os.path.dirname(cfgf), "config.json")
+            if os.path.exists(base_file):
+                base = load_data(base_file)
+                for k in base:
+                    if k != "jobs" and (k not in bcfg or bcfg[k] != base[k]):
+                        self.cfg_drift.append((os.path.basename(cfgf), k, base[k], bcfg.get(k, "<absent>")))
             bid = int(re.search(r"batch_(\d+)\.json", cfgf).group(1))
             i = self.next
             self.next += 1
@@ -111,7 +122,12 @@ class Sim:
             guard += 1
             for j in list(pending):
                 n, b, f = j
-                b = [x for x in b if x in names]
+                outside = [x for x in b if x not in names]
+                if outside:
+                    # the node's queue waits for names that never complete on this node: the job is never started (as the real JobQueue does)
+                    self.stuck.append((n, outside, bid))
+                    pending.remove(j)
+                    continue
                 if all(x in res for x in b):
                     if f and any(res[x] != 0 for x in b):
                         res[n] = 1
@@ -180,6 +196,12 @@ def run_history(S, case):
             prev = [y for y in ns if y < x]
             jobs.append((x, rng.sample(prev, rng.randint(0, min(2, len(prev)))), rng.random() < 0.5))
         rcs = {x: rng.choice([0, 0, 1]) for x in ns}
+        if case.get("chain"):
+            # directed shape (C04): a line j0 <- j1 <- ... of flagged jobs whose head fails; "listing" gives the order in the configuration
+            jobs = [(x, [ns[i - 1]] if i else [], case["chain"] == "flagged" or i % 2 == 1) for i, x in enumerate(ns)]
+            if case.get("listing") == "reversed":
+                jobs.reverse()
+            rcs = {x: (1 if x == ns[0] else 0) for x in ns}
         kw = dict(per_node_batch_size=case["size"], max_nodes=case["max_nodes"], try_add_blocked_jobs=case["try_add"])
         cfg = make_config(jobs, **kw)
         sim.deps = {x: set(b) for x, b, _ in jobs}
@@ -299,6 +321,12 @@ def run_history(S, case):
                 fails.append(f"C16: the teardown command ran {len(tears)} times")
         elif setups or tears:
             fails.append("C16: lifecycle commands ran although none is configured")
+        if sim.cfg_drift:
+            fails.append(f"C16/C17: a batch configuration differs from the submission's configuration outside the job list "
+                         f"(file, key, submission value, batch value): {sim.cfg_drift[:3]}")
+        if sim.stuck:
+            fails.append(f"C02/C03: a batch configuration lists blockers that are not in the batch, so the node never starts the job: "
+                         f"{[(n, o, 'batch %d' % b) for n, o, b in sim.stuck[:3]]}")
         empty = [(i, b) for i, b, js in sim.sbatch if not js]
         if empty:
             fails.append(f"C07: a batch without jobs was handed to the scheduler: {empty}")
@@ -338,6 +366,11 @@ def cases_history(tier, rng):
     for _ in range(nfree):
         yield {"seed": rng.randint(0, 10**9), "n": rng.randint(1, 7), "size": rng.choice([1, 2, 3]), "max_nodes": rng.choice([1, 2, None]),
                "try_add": rng.random() < 0.5, "fault": None}
+    for n in (3, 4):
+        for size in (1, 2):
+            for listing in ("natural", "reversed"):
+                yield {"seed": rng.randint(0, 10**9), "n": n, "size": size, "max_nodes": rng.choice([1, None]), "try_add": size == 2 and n == 4,
+                       "fault": None, "chain": rng.choice(["flagged", "alternating"]) if n == 4 else "flagged", "listing": listing}
     for _ in range(nfault):
         kind = rng.choice(["sbatch_raise", "squeue", "sbatch_error", "lose", "status_timeout"])
         yield {"seed": rng.randint(0, 10**9), "n": rng.randint(2, 6), "size": rng.choice([1, 2]), "max_nodes": rng.choice([1, 2, 3]),
